@@ -9,7 +9,9 @@ TRACE_CFG = "FontInfoTrace.cfg"
 RULE = ("random subsets of the metric cluster (unitsPerEm, ascender, descender, xHeight, capHeight, hhea / typo / win metrics, "
         "caret slope, underline) with integral / fractional (.5, .25) / negative spec-valid values, of the bit-list attributes "
         "(head flags, OS/2 selection / type / Unicode ranges / code page ranges: valid bit numbers in any order, possibly repeated "
-        "or empty), and of the naming cluster "
+        "or empty), of further OS/2 / head / post / vhea attributes (weight and width class, sub/superscript and strikeout "
+        "metrics with their unitsPerEm fallbacks, version numbers, fixed pitch, the vertical metrics that create a vhea table and "
+        "its caret fields), of thirteen plain name records plus version / unique-ID / vendor strings, and of the naming cluster "
         "(family, style, style-map, preferred, PostScript, version) with strings drawn from ASCII, Latin-1, Latin Extended, "
         "Greek, CJK, emoji and PostScript-forbidden characters x {TTF, OTF}; reloaded name / OS/2 / hhea / head / post fields "
         "are compared with the TLA+ fallback formulas; non-trivial = at least one attribute absent and one present; distinct by "
@@ -38,6 +40,33 @@ NUM_ATTRS = {
     "postscriptUnderlineThickness": [50, 42.5],
     "postscriptUnderlinePosition": [-75, -100.5],
 }
+# further numeric attributes (direct mappings / simple fallbacks); integer-typed ones only get integers
+MORE_NUM = {
+    "openTypeOS2WeightClass": [100, 250, 400, 700, 900, 1],
+    "openTypeOS2WidthClass": [1, 3, 5, 9],
+    "openTypeHeadLowestRecPPEM": [6, 9, 12],
+    "openTypeOS2SubscriptXSize": [650, 600, 0], "openTypeOS2SubscriptYSize": [600, 0, 699],
+    "openTypeOS2SubscriptXOffset": [0, 12, -7], "openTypeOS2SubscriptYOffset": [75, 0, 140],
+    "openTypeOS2SuperscriptXSize": [650, 0, 500], "openTypeOS2SuperscriptYSize": [600, 0, 450],
+    "openTypeOS2SuperscriptXOffset": [0, 30], "openTypeOS2SuperscriptYOffset": [350, 0, 477],
+    "openTypeOS2StrikeoutSize": [50, 0, 64], "openTypeOS2StrikeoutPosition": [300, 0, -10, 258],
+    "versionMajor": [1, 0, 2, 13], "versionMinor": [0, 5, 50, 999, 100],
+    "postscriptIsFixedPitch": [False, True],
+    "openTypeVheaVertTypoAscender": [500, 0, 440], "openTypeVheaVertTypoDescender": [-500, 0, -460], "openTypeVheaVertTypoLineGap": [0, 1000, 90],
+    "openTypeVheaCaretSlopeRise": [0, 1], "openTypeVheaCaretSlopeRun": [1, 0], "openTypeVheaCaretOffset": [0, 37, -12],
+}
+MORE_STR = {
+    "copyright": ["(c) 2026 Someone", "Ünïcode ©", ""], "trademark": ["Foo is a trademark", "™ 明朝"],
+    "openTypeNameManufacturer": ["Maker Ltd.", ""], "openTypeNameDesigner": ["A. Designer", "Ďesigner"],
+    "openTypeNameDescription": ["A description.\nSecond line", "x"], "openTypeNameManufacturerURL": ["https://example.com"],
+    "openTypeNameDesignerURL": ["https://example.org/d"], "openTypeNameLicense": ["OFL 1.1", ""],
+    "openTypeNameLicenseURL": ["https://openfontlicense.org"], "openTypeNameCompatibleFullName": ["Compat Full", ""],
+    "openTypeNameSampleText": ["Pack my box 😀", "abc"], "openTypeNameWWSFamilyName": ["WWS Fam"], "openTypeNameWWSSubfamilyName": ["WWS Sub"],
+    "openTypeNameVersion": ["Version 2.100", "1.5 beta", "Version 0.001;build 7"], "openTypeNameUniqueID": ["unique-id-1", "x;y;z"],
+    "openTypeOS2VendorID": ["ABCD", "XY", "Goog", "N"],
+}
+
+
 STRINGS = ["Test Family", "Ābc Sans", "Grüße", "Ελληνικά", "明朝", "Emoji 😀 Font", "Paren (Test) [x]", "Slash/Per%cent", "  Padded  ",
            "A", "New-Font", "Ünï Çödé"]
 STYLES = ["Regular", "Bold", "Italic", "Bold Italic", "bold", "Light", "Condensed Bold", "Regular ", "SemiBold Italic", "Ēxtra"]
@@ -98,6 +127,16 @@ def cases(tier, seed):
         for a, valid in BIT_ATTRS.items():
             if rng.random() < 0.3:
                 info[a] = _bitlist(rng, valid)
+        pm = rng.choice([0.1, 0.3, 0.6])
+        for a, vals in MORE_NUM.items():
+            if rng.random() < pm:
+                info[a] = rng.choice(vals)
+        if rng.random() < 0.3:       # the three vertical metrics together: the font then gets a vhea table
+            for a in ("openTypeVheaVertTypoAscender", "openTypeVheaVertTypoDescender", "openTypeVheaVertTypoLineGap"):
+                info.setdefault(a, rng.choice(MORE_NUM[a]))
+        for a, vals in MORE_STR.items():
+            if rng.random() < pm:
+                info[a] = rng.choice(vals)
         # keep the subset spec-valid
         if info.get("ascender", 1) < 0:
             info.pop("ascender")
@@ -137,8 +176,8 @@ def execute(case):
     font = absfont.build_font({"glyphs": glyphs, "info": dict(case["info"])}, case["lib"])
     info = case["info"]
     rec = {"tid": case["cid"], "present": sorted(a for a in info if a not in BIT_ATTRS), "flavor": case["flavor"],
-           "num": {a: absfont.to_scaled(v, 4) for a, v in info.items() if a in NUM_ATTRS},
-           "str": {a: _cps(v) for a, v in info.items() if a in STR_ATTRS},
+           "num": {a: absfont.to_scaled(int(v) if isinstance(v, bool) else v, 4) for a, v in info.items() if a in NUM_ATTRS or a in MORE_NUM},
+           "str": {a: _cps(v) for a, v in info.items() if a in STR_ATTRS or a in MORE_STR},
            "bits": {a: list(v) for a, v in info.items() if a in BIT_ATTRS}}
     try:
         otf = (ufo2ft.compileTTF if case["flavor"] == "tt" else ufo2ft.compileOTF)(font, useProductionNames=False)
@@ -162,6 +201,18 @@ def execute(case):
                     "macStyle": _bits_of(hd.macStyle),
                     "unicodeRanges": _bits_of(os2.ulUnicodeRange1, os2.ulUnicodeRange2, os2.ulUnicodeRange3, os2.ulUnicodeRange4),
                     "codePageRanges": _bits_of(os2.ulCodePageRange1, os2.ulCodePageRange2)}}
+    ret["more"] = {"usWeightClass": os2.usWeightClass, "usWidthClass": os2.usWidthClass, "lowestRecPPEM": hd.lowestRecPPEM,
+                   "ySubscriptXSize": os2.ySubscriptXSize, "ySubscriptYSize": os2.ySubscriptYSize, "ySubscriptXOffset": os2.ySubscriptXOffset,
+                   "ySubscriptYOffset": os2.ySubscriptYOffset, "ySuperscriptXSize": os2.ySuperscriptXSize, "ySuperscriptYSize": os2.ySuperscriptYSize,
+                   "ySuperscriptXOffset": os2.ySuperscriptXOffset, "ySuperscriptYOffset": os2.ySuperscriptYOffset,
+                   "yStrikeoutSize": os2.yStrikeoutSize, "yStrikeoutPosition": os2.yStrikeoutPosition,
+                   "isFixedPitch": int(post.isFixedPitch), "fontRevision1000": int(round(hd.fontRevision * 1000))}
+    ret["hasVhea"] = "vhea" in f2
+    if "vhea" in f2:
+        vh = f2["vhea"]
+        ret["vhea"] = {"ascent": vh.ascent, "descent": vh.descent, "lineGap": vh.lineGap, "caretSlopeRise": vh.caretSlopeRise,
+                       "caretSlopeRun": vh.caretSlopeRun, "caretOffset": vh.caretOffset}
+    ret["vendor"] = _cps(os2.achVendID)
     if "CFF " in f2:
         cff = f2["CFF "].cff
         ret["cffName"] = _cps(cff.fontNames[0])
@@ -179,7 +230,7 @@ def _execute_vf(case, glyphs):
     base_info = dict(case["info"])
     base_info.setdefault("familyName", "VF Test")
     base_info.pop("postscriptFontName", None)
-    for a in BIT_ATTRS:
+    for a in list(BIT_ATTRS) + list(MORE_NUM) + list(MORE_STR):
         base_info.pop(a, None)
     merged = dict(base_info)
     merged.update(case["vfInfo"])
@@ -217,7 +268,7 @@ def _execute_vf(case, glyphs):
 
 
 def nontrivial(rec):
-    return 0 < len(rec["present"]) < len(NUM_ATTRS) + len(STR_ATTRS)
+    return 0 < len(rec["present"]) < len(NUM_ATTRS) + len(STR_ATTRS) + len(MORE_NUM) + len(MORE_STR)
 
 
 def classify(rec, pfail, mfail, extra, rep):
